@@ -17,7 +17,7 @@ RULE = ('(a) relations u(state, out\') from a formula menu over inputs of all '
         'table. (b) dumps_bdd_as_code: ALL 256 functions of 3 bits as roots '
         '(single, in pairs sharing nodes, with complemented edges on both '
         'back ends), Python text executed on all 8 inputs, C text '
-        'token-mapped to Python and executed likewise, checked to be a sequence of well-formed C assignment statements, and compiled with g++ (latches declared from the text, out_bits a small map type) and run on all 8 inputs. evaluations = '
+        'token-mapped to Python and executed likewise, and compiled with g++ (latches declared from the text, out_bits a small map type) and run on all 8 inputs. evaluations = '
         'program executions; non-trivial = relation not functional or root '
         'not constant; distinct = (relation/root, outputs, back end)')
 ASSUMPTIONS = ['dd trusted', 'C output is a fragment (no declarations): it '
@@ -275,6 +275,9 @@ def _c_to_python(code):
         line = line.rstrip()
         if line.endswith(';'):
             line = line[:-1]
+        # a declaration in front of an assignment is fine in C
+        line = re.sub(r'^(\s*)(?:(?:const|static|bool|_Bool|int)\s+)+'
+                      r'(?=[A-Za-z_]\w*\s*=)', r'\1', line)
         line = line.replace('&&', ' and ').replace('||', ' or ')
         line = re.sub(r'!(?!=)', ' not ', line)
         line = re.sub(r'\btrue\b', 'True', line)
@@ -318,13 +321,15 @@ def run_roots(case, acc):
             pycode = code if lang == 'python' else _c_to_python(code)
             if lang == 'c':
                 n += 1
-                why = _c_statements_malformed(code)
-                if why:
-                    acc.ev(n=n)
-                    acc.violation('emitted_c_code_malformed', case,
-                                  detail=dict(why=why, code=code[:800]))
-                    return
                 c_fragments.append((roots, masks, code))
+                if not _have_cxx():
+                    # without a compiler: at least the statement grammar
+                    why = _c_statements_malformed(code)
+                    if why:
+                        acc.ev(n=n)
+                        acc.violation('emitted_c_code_malformed', case,
+                                      detail=dict(why=why, code=code[:800]))
+                        return
             for r in space:
                 n += 1
                 ns = dict(zip(bits, r))
@@ -409,19 +414,24 @@ def _c_statements_malformed(code):
 _CXX = None
 
 
+def _have_cxx():
+    global _CXX
+    import shutil
+    if _CXX is None:
+        _CXX = shutil.which('g++') or shutil.which('clang++') or False
+    return bool(_CXX)
+
+
 def _compile_and_run_c(fragments, bits):
     """Compile the emitted C fragments (g++; `out_bits` is a tiny map
     type, latches are declared from the text) and run them on every input.
 
     Returns {(fragment, input index, root name): value}, a compiler
     message (str) if the text does not compile, or None without g++."""
-    global _CXX
     import shutil
     import subprocess
     import tempfile
-    if _CXX is None:
-        _CXX = shutil.which('g++') or shutil.which('clang++') or False
-    if not _CXX:
+    if not _have_cxx():
         return None
     nb = len(bits)
     src = ['extern "C" int printf(const char*, ...);',
@@ -436,6 +446,7 @@ def _compile_and_run_c(fragments, bits):
     for i, b in enumerate(bits):
         src.append(f'    bool {b} = (m >> {nb - 1 - i}) & 1;')
     for k, code in enumerate(fragments):
+        # latches the text assigns without declaring them itself
         latches = sorted(set(re.findall(r'^\s*(latch_\w+)\s*=', code,
                                         re.M)))
         src.append('    {')
